@@ -45,6 +45,9 @@ def bookkeepersTy : Ty := .list { cnt := .varuint, signedLoop := true } (lf .key
 def sigDataTy : Ty := .list { cnt := .varuint, signedLoop := true } (lf .varbytes)
 def headerTy : Ty := headerUnsignedTy ⊗ bookkeepersTy ⊗ sigDataTy
 
+/-- `TxAttribute` (streaming codec): usage byte restricted to Nonce / Script / DescriptionUrl / Description, then data -/
+def txAttributeTy : Ty := .leaf .u8 (.oneOf [0x00, 0x20, 0x81, 0x90]) ⊗ lf .varbytes
+
 /-- the `TransactionsRoot` field of a header value -/
 def headerTxRoot (h : headerTy.Val) : Bytes := h.1.2.2.2.1
 
